@@ -209,6 +209,23 @@ def search(payload):
                         fails.append({"p": f"ne_p(1) & ... & ne_p({width}) [{width} operands]", "q": repr(con)[:200], "x": repr(x), "p_structure": skey(ant),
                                       "q_structure": skey(con), "kind": "unsound: implies() is True but x satisfies p and not q"})
                         break
+    # function atoms that distinguish values which are == (1 / True / 1.0): nothing that holds for "the constant" holds for every value equal to it
+    from predicate.standard_predicates import fn_p as _fn5
+    tsens = [("type(x) is int", lambda x: type(x) is int), ("type(x) is bool", lambda x: type(x) is bool), ("type(x) is float", lambda x: type(x) is float), ("x is True", lambda x: x is True),
+             ("repr(x) == '1'", lambda x: repr(x) == "1")]
+    for c in (1, True, 1.0, 0, False, 0.0, 2):
+        for lbl, f in tsens:
+            for ant in (_eq(c), _in(c), _in(c, 7), _eq(c) & _ge(0)):
+                n += 1
+                try:
+                    r = implies(ant, _fn5(f))
+                except Exception:  # noqa: BLE001
+                    continue
+                if r:
+                    for x in (1, True, 1.0, 0, False, 0.0, 2, 2.0, 7, 7.0):
+                        if call(ant, x) == ("ok", True) and not f(x):
+                            fails.append({"p": repr(ant), "p_structure": skey(ant), "q": f"fn_p(lambda x: {lbl})", "x": repr(x), "kind": "unsound: implies() is True but x satisfies p and not q"})
+                            break
     # HISTORY (history.py): the same questions asked again and again in this process (fresh objects, several orders), constants whose
     # hashes collide (-1 / -2), the SAME conjunction object asked about each of its operands in turn, ill-typed questions in between
     import datetime as _dt2
